@@ -150,7 +150,7 @@ func (e *Engine) evCall(c *ast.CallExpr, st *State) []Value {
 					e.fail(c.Pos(), "old() without entry state")
 				}
 				e.spec++
-				v := e.evOld(c.Args[0])
+				v := e.evOld(c.Args[0], st)
 				e.spec--
 				return []Value{v}
 			}
@@ -419,7 +419,7 @@ func (e *Engine) evCall(c *ast.CallExpr, st *State) []Value {
 	if ix, ok := fun.(*ast.IndexExpr); ok {
 		if id, ok := ix.X.(*ast.Ident); ok && id.Name == "old" && e.isSpecHelper(id) {
 			e.spec++
-			v := e.evOld(c.Args[0])
+			v := e.evOld(c.Args[0], st)
 			e.spec--
 			return []Value{v}
 		}
@@ -550,10 +550,22 @@ func (e *Engine) isSpecHelper(id *ast.Ident) bool {
 	return strings.HasSuffix(f, "_verif.go")
 }
 
-func (e *Engine) evOld(x ast.Expr) Value {
+func (e *Engine) evOld(x ast.Expr, cur ...*State) Value {
 	// evaluate in the entry state; locals assigned since then are invisible, parameters have entry values;
 	// variables bound by an enclosing quantifier stay visible
 	s := e.entry.clone()
+	// the ghost records of tracked calls (lastArgStr, lastErr, called...) are not program state: inside old() they keep
+	// their current values, so that old(f(x, lastArgStr("g", 0))) reads memory as it was at entry
+	for _, c := range cur {
+		if c == nil {
+			continue
+		}
+		for k, v := range c.vars {
+			if sk, ok := k.(*synth); ok && strings.HasPrefix(sk.name, "callres:") {
+				s.vars[k] = v
+			}
+		}
+	}
 	for _, b := range e.boundVars {
 		s.vars[b.obj] = b.val
 	}
